@@ -130,7 +130,7 @@ package file
 // C01 / C05: the position algebra of makeReader. Children wholly before the offset are skipped by
 // their declared sizes without being opened; the first reader appended is the child that contains
 // the offset, fast-forwarded to it; every later reader starts where the previous one ended.
-//@ props C01 C04 C05 C20
+//@ props C01 C04 C05 C06 C12 C20
 
 //@ spec def nkids(f *file.shardNodeFile) int64 = listLen(lookupStr(f.substrate, "Links"))
 //@ spec def sizesOK(f *file.shardNodeFile) bool = (forall i int64 :: 0 <= i && i < nkids(f) ==> 0 <= declSize(f, i)) && (forall i int64 :: 0 <= i && i <= nkids(f) ==> 0 <= startOf(f, i) && startOf(f, i) < (1 << 62))
@@ -199,7 +199,7 @@ package file
 // C12 / C04: a lazily resolved child. A failed load is returned as the error of the Read / Seek that
 // needed it (never masked as EOF, never swallowed) and leaves the node unresolved so that a later
 // call tries again; a successful resolve requests exactly one block.
-//@ props C04 C05 C12
+//@ props C04 C05 C06 C12
 
 //@ func (*file.deferredFileNode).resolve
 //@ ensures failure-leaves-it-unresolved: err != nil ==> d.lsys == old(d.lsys) && d.root == old(d.root) && d.LargeBytesNode == old(d.LargeBytesNode)
